@@ -314,7 +314,6 @@ let classify head body lines supported =
       (if ncb < nreq then "!" else "");
       (if supported then "" else "~monitor-only") ]
 
-let fuel = nat_of_int 4000
 
 (* the tree under test: with or without fixes/C01-cancel-complete.patch (props/C01.py looks at the sources) *)
 let cancelmark = (try Sys.getenv "C01_CANCELMARK" <> "0" with Not_found -> true)
@@ -404,6 +403,11 @@ let () =
           let mcfg = { cf_fix = fixes_in_tree; cf_tries = nat_of_int cfg.tries; cf_nservers = nat_of_int cfg.nservers;
                        cf_igntc = List.mem "igntc" cfg.flags; cf_nocheckresp = List.mem "nocheckresp" cfg.flags;
                        cf_dns0x20 = List.mem "dns0x20" cfg.flags } in
+          (* the fuel: Lifecycle_fuel_top.run_fuel_sufficient shows that fuel_bound (20 x (4 x tape events +
+             sizes of the calls) + 10) is never exhausted, so "out of fuel" is not among the ways the
+             model can stop *)
+          let fuel = fuel_bound (List.filter_map (fun (inp, tape, _) -> match inp with Some i -> Some (i, tape) | None -> None) segs)
+                                (match final with Some t -> t | None -> []) in
           (* step by step, to name the operation at which model and implementation part *)
           let st = ref (init_state mcfg) in
           let stop = ref false in
